@@ -7,8 +7,6 @@ import (
 	"golang.org/x/tools/go/ssa"
 )
 
-
-
 func runDump(args []string) {
 	p := loadProgram(repoDir())
 	switch args[0] {
